@@ -137,6 +137,9 @@ func (g Gateway) RegisterSwamp(_ context.Context, in *hydrapb.RegisterSwampReque
 		// return with grpc error message
 		return nil, status.Error(codes.InvalidArgument, "SwampPattern cannot be empty")
 	}
+	if !isValidSwampName(in.SwampPattern) {
+		return nil, status.Error(codes.InvalidArgument, "SwampPattern must have exactly three non-empty parts: sanctuary/realm/swamp")
+	}
 
 	// try to create the pattern from the input string
 	swampPattern := name.Load(in.SwampPattern)
@@ -181,6 +184,9 @@ func (g Gateway) DeRegisterSwamp(_ context.Context, in *hydrapb.DeRegisterSwampR
 	if in.SwampPattern == "" {
 		// return with grpc error message
 		return nil, status.Error(codes.InvalidArgument, "SwampPattern cannot be empty")
+	}
+	if !isValidSwampName(in.SwampPattern) {
+		return nil, status.Error(codes.InvalidArgument, "SwampPattern must have exactly three non-empty parts: sanctuary/realm/swamp")
 	}
 
 	// try to create the pattern from the input string
@@ -355,7 +361,7 @@ func (g Gateway) Get(ctx context.Context, in *hydrapb.GetRequest) (*hydrapb.GetR
 		if _, err := checkSwampName(g.ZeusInterface, swampRequest.GetIslandID(), swampRequest.SwampName, checkExistence); err != nil {
 			return nil, err
 		}
-		if swampRequest.GetKeys() == nil || swampRequest.GetKeys()[0] == "" {
+		if len(swampRequest.GetKeys()) == 0 || swampRequest.GetKeys()[0] == "" {
 			// return with grpc error message
 			return nil, status.Error(codes.InvalidArgument, "Keys cannot be empty")
 		}
@@ -1253,6 +1259,12 @@ func (g Gateway) DestroyBulk(stream hydrapb.HydraideService_DestroyBulkServer) e
 		go func() {
 			defer wg.Done()
 			for target := range workCh {
+				if !isValidSwampName(target.GetSwampName()) {
+					// name.Load would panic in this goroutine, where nothing recovers
+					failed.Add(1)
+					lastError.Store(fmt.Sprintf("%s: invalid swamp name", target.GetSwampName()))
+					continue
+				}
 				swampName := name.Load(target.GetSwampName())
 				swampInterface, err := hydraInterface.SummonSwamp(stream.Context(), target.GetIslandID(), swampName)
 				if err != nil {
@@ -2960,6 +2972,12 @@ func handlePanic() {
 	}
 }
 
+// isValidSwampName reports whether the name has exactly three non-empty parts (sanctuary/realm/swamp).
+func isValidSwampName(swampName string) bool {
+	parts := strings.Split(swampName, "/")
+	return len(parts) == 3 && parts[0] != "" && parts[1] != "" && parts[2] != ""
+}
+
 // checkSwampName check if the swamp name is valid and exist or not.
 // The function will return a grpc error message if the swamp name is invalid or does not exist.
 func checkSwampName(zeusInterface zeus.Zeus, islandID uint64, inputSwampName string, checkExist bool) (name.Name, error) {
@@ -2968,6 +2986,10 @@ func checkSwampName(zeusInterface zeus.Zeus, islandID uint64, inputSwampName str
 	if inputSwampName == "" {
 		// return with grpc error message
 		return nil, status.Error(codes.InvalidArgument, "SwampName cannot be empty")
+	}
+	if !isValidSwampName(inputSwampName) {
+		// name.Load indexes three parts: a shorter name would panic there
+		return nil, status.Error(codes.InvalidArgument, "SwampName must have exactly three non-empty parts: sanctuary/realm/swamp")
 	}
 	swampName := name.Load(inputSwampName)
 
